@@ -47,3 +47,69 @@ func objectSchemas(dialect string) map[string]*schema.Schema {
 	}
 	return out
 }
+
+// defaultSchemas: one-column tables whose default is written the way an inspection reports it (literal text as stored by the engine,
+// raw expressions); label -> schema. The round trip must give back a default the dialect's differ considers unchanged.
+func defaultSchemas(dialect string) map[string]*schema.Schema {
+	type tc struct {
+		name string
+		mk   func() schema.Type
+		raw  string
+	}
+	var (
+		ints, floats, bools, strs, times tc
+		sch                              string
+	)
+	switch dialect {
+	case "mysql":
+		sch = "app"
+		ints = tc{"int", func() schema.Type { return &schema.IntegerType{T: "bigint"} }, "bigint"}
+		floats = tc{"float", func() schema.Type { return &schema.FloatType{T: "double"} }, "double"}
+		bools = tc{"bool", func() schema.Type { return &schema.BoolType{T: "bool"} }, "bool"}
+		strs = tc{"str", func() schema.Type { return &schema.StringType{T: "varchar", Size: 64} }, "varchar(64)"}
+		times = tc{"time", func() schema.Type { return &schema.TimeType{T: "timestamp"} }, "timestamp"}
+	case "postgres":
+		sch = "public"
+		ints = tc{"int", func() schema.Type { return &schema.IntegerType{T: "bigint"} }, "bigint"}
+		floats = tc{"float", func() schema.Type { return &schema.FloatType{T: "double precision", Precision: 53} }, "double precision"}
+		bools = tc{"bool", func() schema.Type { return &schema.BoolType{T: "boolean"} }, "boolean"}
+		strs = tc{"str", func() schema.Type { return &schema.StringType{T: "text"} }, "text"}
+		times = tc{"time", func() schema.Type { return &schema.TimeType{T: "timestamp without time zone"} }, "timestamp without time zone"}
+	default:
+		sch = "main"
+		ints = tc{"int", func() schema.Type { return &schema.IntegerType{T: "integer"} }, "integer"}
+		floats = tc{"float", func() schema.Type { return &schema.FloatType{T: "real"} }, "real"}
+		bools = tc{"bool", func() schema.Type { return &schema.BoolType{T: "boolean"} }, "boolean"}
+		strs = tc{"str", func() schema.Type { return &schema.StringType{T: "text"} }, "text"}
+		times = tc{"time", func() schema.Type { return &schema.TimeType{T: "datetime"} }, "datetime"}
+	}
+	lit := func(v string) schema.Expr { return &schema.Literal{V: v} }
+	rawx := func(v string) schema.Expr { return &schema.RawExpr{X: v} }
+	cases := []struct {
+		t tc
+		d schema.Expr
+		l string
+	}{
+		{ints, lit("1"), "1"}, {ints, lit("0"), "0"}, {ints, lit("-5"), "-5"}, {ints, lit("9223372036854775807"), "maxint64"},
+		{floats, lit("1.5"), "1.5"}, {floats, lit("-0.5"), "-0.5"}, {floats, lit("1e3"), "1e3"}, {floats, lit("2.5E-3"), "2.5E-3"}, {floats, lit("10"), "10"},
+		{bools, lit("true"), "true"}, {bools, lit("false"), "false"}, {bools, lit("TRUE"), "TRUE"}, {bools, lit("FALSE"), "FALSE"}, {bools, lit("True"), "True"},
+		{strs, lit("'x'"), "'x'"}, {strs, lit("''"), "empty"}, {strs, lit("'it''s'"), "quote-inside"}, {strs, lit("'1'"), "'1'"}, {strs, lit("'true'"), "'true'"},
+		{strs, lit("'a b'"), "blank-inside"}, {strs, lit("'null'"), "'null'"},
+		{times, rawx("CURRENT_TIMESTAMP"), "current_timestamp"},
+		{ints, rawx("(1 + 1)"), "expr"},
+	}
+	out := map[string]*schema.Schema{}
+	for _, c := range cases {
+		// MySQL and PostgreSQL report defaults in a normal form (0.0025, true); only SQLite keeps the text as written
+		if dialect != "sqlite" && (c.l == "1e3" || c.l == "2.5E-3" || c.l == "TRUE" || c.l == "FALSE" || c.l == "True") {
+			continue
+		}
+		s := schema.New(sch)
+		t := schema.NewTable("t").SetSchema(s)
+		col := &schema.Column{Name: "c", Type: &schema.ColumnType{Type: c.t.mk(), Raw: c.t.raw, Null: true}, Default: c.d}
+		t.AddColumns(col)
+		s.AddTables(t)
+		out["default "+c.t.name+" "+c.l] = s
+	}
+	return out
+}
